@@ -127,6 +127,9 @@ def _fill_topdown(cinco, schema, d, root, validators):
                 item = cinco.make_type(item, "I_" + key, key_filename=_keyfile(f["item"], root))
             setattr(schema, key, cinco.ListField(item, **fieldmap.common_kwargs(f, root)))
         else:
+            if f.get("redeclared") == "flag":
+                # the key is declared twice, as applications that evolve do: what counts is the last declaration
+                setattr(schema, key, cinco.FeatureFlagField(default=False))
             setattr(schema, key, fieldmap.build(cinco, f, root))
     for name in seq(d.get("validators", [])):
         fn = (validators or {}).get(name) or make_validator(name)
